@@ -3,7 +3,7 @@
 (A) MC_FM: TLC explores all histories (length <= 3 quick / 4 thorough) of constructor calls in the
 implementation-shaped FormulaManager model (node table keyed by content, constant caches keyed by
 Python value equality) and checks OneObjectPerStructure, AccessorFidelity, TableInjective, CachesAgree.
-(B) TLC-enumerated / simulated call histories over the 69 documented spellings and normalisations
+(B) TLC-enumerated / simulated call histories over the 76 documented spellings and normalisations
 (FMCalls.tla) are replayed in fresh Environments, interleaved with unrelated constructions; identity
 classes and accessor read-back are logged after every call.  (C) TLC validates them against the
 denotations of FMCalls.tla (FMHistoryContract).  Cross-environment: TLC-generated terms (incl. custom
@@ -59,6 +59,9 @@ def make_calls(env):
         "Real(1/3.0)": lambda: m.Real(1 / 3.0), "Real(Fraction(1/3.0))": lambda: m.Real(Fraction(1 / 3.0)),
         "Real((2**60+1,1))": lambda: m.Real((2 ** 60 + 1, 1)), "Real(2**60)": lambda: m.Real(2 ** 60),
         "Real(float(2**60))": lambda: m.Real(float(2 ** 60)), "Int(2**60+1)": lambda: m.Int(2 ** 60 + 1), "Int(2**60)": lambda: m.Int(2 ** 60),
+        "BVRol(b,2)": lambda: m.BVRol(b(), 2), "BVRol(b,0)": lambda: m.BVRol(b(), 0), "BVRor(b,2)": lambda: m.BVRor(b(), 2),
+        "BVRor(b,0)": lambda: m.BVRor(b(), 0), "BVRol(b,1)": lambda: m.BVRol(b(), 1), "BVZExt(b,0)": lambda: m.BVZExt(b(), 0),
+        "BVExtract(b,0,1)": lambda: m.BVExtract(b(), 0, 1),
     }
 
 
@@ -224,7 +227,7 @@ def run(ck):
     ck.sample({"calls": [names[c - 1] for c in evs[len(singles) + 3]["calls"]], "obs": evs[len(singles) + 3]["obs"]})
     ck.sample({"kind": "normalize", "src": evs[-1]["src"], "shared": evs[-1]["shared"]})
     ck.cov["exhaustive"] = not quick
-    ck.cov["rule"] = ("constructor-call histories over the 69 spellings/normalisations of FMCalls.tla: all singles, all ordered pairs "
+    ck.cov["rule"] = ("constructor-call histories over the 76 spellings/normalisations of FMCalls.tla: all singles, all ordered pairs "
                       "(every second pair in quick), TLC-simulated histories of length 7; each replayed in a fresh Environment, half of "
                       "them interleaved with unrelated constructions; + normalize() of TLC-generated terms into a second environment. "
                       "non-trivial = histories in which two calls returned the same object / distinct normalized terms")
